@@ -142,6 +142,19 @@ def long_chain_program(rng):
     return "\n".join(L) + "\n"
 
 
+def reversed_chain_program(rng):
+    """A function whose blocks are single jumps laid out bottom-up, more than a hundred of them, with a
+    register set before the chain and read only behind it: liveness needs one sweep per block. Any fixed cap
+    on the number of sweeps that ordinary programs never reach (seed C02-t: 100) leaves the facts half
+    propagated here."""
+    n = rng.randrange(125, 150)
+    L = [".data", "buf: .word 0", ".text", "main:", "    la a0, buf", "    jal work", "    li a7, 10", "    ecall",
+         "work:", "    li t2, 5", "    j step1", f"step{n}:", "    sw t2, 0(a0)", "    ret"]
+    for i in range(n - 1, 0, -1):
+        L += [f"step{i}:", f"    j step{i + 1}"]
+    return "\n".join(L) + "\n"
+
+
 def slow_convergence_program(rng):
     """A loop whose blocks are laid out against the direction of execution (one backward jump per
     block) and around which a value changes in stages (t0 -> t1 -> a7): the value analysis needs
@@ -521,7 +534,7 @@ def shared_tail_programs(rng):
 
 
 def gen_programs(rng, n, sloppy_choices=(0, 0.1, 0.3), multi=0.15):
-    out = list(CORPUS) + branch_matrix() + ecall_matrix() + arith_matrix(rng) + alloca_programs(rng) + handler_layouts(rng) + early_out_programs(rng) + entry_by_jump_programs(rng) + [long_chain_program(rng), slow_convergence_program(rng), slow_convergence_program(rng)] + label_then_directive_programs(rng) + exit_in_function_programs(rng) + dead_chain_programs(rng) + alias_base_programs(rng) + exit_then_loop_programs(rng) + tail_jump_programs(rng) + auipc_programs(rng) + indirect_jump_programs(rng) + shared_tail_programs(rng)
+    out = list(CORPUS) + branch_matrix() + ecall_matrix() + arith_matrix(rng) + alloca_programs(rng) + handler_layouts(rng) + early_out_programs(rng) + entry_by_jump_programs(rng) + [long_chain_program(rng), reversed_chain_program(rng), slow_convergence_program(rng), slow_convergence_program(rng)] + label_then_directive_programs(rng) + exit_in_function_programs(rng) + dead_chain_programs(rng) + alias_base_programs(rng) + exit_then_loop_programs(rng) + tail_jump_programs(rng) + auipc_programs(rng) + indirect_jump_programs(rng) + shared_tail_programs(rng)
     for _ in range(max(4, n // 10)):
         out.append(handler_program(rng))
         out.append(backward_layout(rng))
